@@ -121,6 +121,38 @@ def real_label_sequences(L, sch, cobj, key, edb_bytes, db):
     return seqs
 
 
+def restored_tables(L, cobj, raw):
+    """{table name: keys in the order of the object that deserialize() rebuilds} - whatever the wire format is"""
+    edb = L.SSEEncryptedDatabase.deserialize(raw, cobj)
+    out = {}
+    for slot in type(edb).__slots__:
+        v = getattr(edb, slot)
+        tabs = [(slot, v)] if isinstance(v, dict) else \
+            [(f"{slot}[{i}]", x) for i, x in enumerate(v)] if isinstance(v, list) and v and isinstance(v[0], dict) else []
+        for name, d in tabs:
+            ks = list(dict.keys(d))
+            if ks and all(isinstance(k, (bytes, bytearray)) for k in ks):
+                out[name] = ks
+    return out
+
+
+def byte_offset_order(raw, keys, rng, sample=300):
+    """Labels are stored verbatim in every wire format the schemes use: the order of their byte offsets in the
+    serialized index IS the stored label sequence. Returns (checked, ok): a sample of the labels, taken in ascending
+    label order, must have ascending offsets. Labels shorter than 8 bytes (chance matches) or not found are skipped."""
+    ks = [k for k in keys if len(k) >= 8]
+    if len(ks) > sample:
+        ks = rng.sample(ks, sample)
+    ks.sort()
+    offs = []
+    for k in ks:
+        o = raw.find(k)
+        if o < 0 or raw.find(k, o + 1) >= 0:
+            continue
+        offs.append(o)
+    return len(offs), all(a < b for a, b in zip(offs, offs[1:]))
+
+
 def permutations_of(db, rng):
     items = list(db.items())
     rev = dict(reversed(items))
@@ -163,6 +195,28 @@ def run_sorted_case(scheme, cid, cfg, cls, db, acc, rng, permutations=None, reco
             if keys != sorted(keys):
                 acc.violation(f"{short}:table-not-sorted", f"{scheme}: keys of {path} are not in ascending order in the "
                                                            f"serialized index ({pname} input order)", dict(case, order=pname))
+                return True
+        # the same two questions asked independently of the wire format: the tables of the index that deserialize()
+        # restores, and the byte offsets of the labels inside the serialized index
+        try:
+            rest = restored_tables(L, cobj, raw)
+        except Exception as e:
+            acc.note(f"{short}: deserialize failed in the sorted-table check: {exc_site(e)}")
+            rest = {}
+        for name, keys in rest.items():
+            acc.count("restored_tables_checked")
+            acc.count("restored_tables_checked." + short)
+            if keys != sorted(keys):
+                acc.violation(f"{short}:table-not-sorted:restored-index",
+                              f"{scheme}: the labels of {name} in the index restored from its serialized form are not in "
+                              f"ascending order ({pname} input order)", dict(case, order=pname))
+                return True
+            n_off, asc = byte_offset_order(raw, keys, rng)
+            acc.count("labels_located_in_serialized_bytes", n_off)
+            if not asc:
+                acc.violation(f"{short}:table-not-sorted:byte-offsets",
+                              f"{scheme}: inside the serialized index the labels of {name} do not appear in ascending "
+                              f"label order ({pname} input order)", dict(case, order=pname))
                 return True
         if record:
             seqs = real_label_sequences(L, sch, cobj, key, raw, pdb)
@@ -461,6 +515,9 @@ def run_shard(spec, acc, ctx):
         return
     if spec["part"] == "sorted":
         first = True
+        # PiBas has no configured identifier size: identifiers of mixed lengths (ciphertexts of several widths) are
+        # valid input and the table must be in label order all the same
+        gen.MIXED_ID_SIZES = scheme == "CJJ14.PiBas"
         for cid, cfg, cls, db, info in sse.iter_cases(spec, ctx, scales=[6, 16, 40],
                                                       classes=["many-singletons", "block-edge", "zipf", "pow2-edge",
                                                                "shared-id", "one-heavy"]):
@@ -510,6 +567,8 @@ def finish(m, tier, seed):
     c = m["counters"]
     inc = []
     per = {}
+    if c.get("labels_located_in_serialized_bytes", 0) < 5000:
+        inc.append("fewer than 5000 labels were located in serialized indexes")
     if c.get("placement.twin_pairs", 0) < 4:
         inc.append("placement was compared across fewer than 4 pairs of twin interpreters")
     if c.get("placement.forked_pairs", 0) < 10:
@@ -553,6 +612,8 @@ def finish(m, tier, seed):
         "slot_map_comparisons": c.get("slot_map_comparisons", 0),
         "keywords_with_different_slots": c.get("keywords_with_different_slots", 0),
         "setup_failed": c.get("setup_failed", 0),
+        "tables_of_restored_indexes_checked": c.get("restored_tables_checked", 0),
+        "labels_located_in_serialized_bytes": c.get("labels_located_in_serialized_bytes", 0),
         "placement_pairs_built_in_forked_workers": c.get("placement.forked_pairs", 0),
         "placement_pairs_built_in_twin_interpreters": c.get("placement.twin_pairs", 0),
         "placement_cases_preceded_by_the_all_scheme_prelude": c.get("placement.with_prelude", 0),
